@@ -184,6 +184,8 @@ class Observer:
             return
         sa = self.sas.get((h['spi_i'], h['spi_r']))
         if sa is None:
+            if self.problems:
+                return                # an earlier, reported problem already explains it
             self.problem('wire-protection', 'unknown-ike-sa', 'protected datagram for SPIs %s/%s that no observed '
                          'exchange created' % (h['spi_i'].hex(), h['spi_r'].hex()))
             return
@@ -297,8 +299,8 @@ class Observer:
         how = ('piggyback' if piggyback else 'ccsa') + ('-pfs' if pfs else '') + ('-on-rekeyed' if sa['how'] != 'initial'
                                                                                     else '')
         self.children.append(dict(how=how, stage=self.stage, proto=rprop[1], initiator=initiator,
-                                  sas={rprop[2]: (ei, ai, 'initiator-to-responder'),
-                                       iprop[2]: (er, ar, 'responder-to-initiator')},
+                                  sas={rprop[2]: (ei, ai, 'i2r'),
+                                       iprop[2]: (er, ar, 'r2i')},
                                   dh=dict(self.last_dh) if pfs else None, pfs=pfs, suite=su))
         self.note('child-keymat:' + how, ei, ai, er, ar)
 
@@ -341,26 +343,29 @@ class Observer:
     def finish(self, world):
         for c in self.children:
             self.stage = c['stage']
+            bad, detail = set(), []
             for name, ep in sorted(world.endpoints.items()):
                 for spi, (ek, ak, direction) in c['sas'].items():
                     got = [dec for raw, dec, err in ep.kernel.log
                            if dec is not None and dec['name'] == 'NEWSA' and dec['spi'] == spi and not err]
                     if len(got) != 1:
-                        self.problem('child-keymat', c['how'] + ':not-installed', '%s installed %d SAs for SPI %s of a '
-                                     'CHILD_SA negotiated on the wire' % (name, len(got), spi.hex()))
+                        bad.add('not-installed')
+                        detail.append('%s installed %d SAs for SPI %s' % (name, len(got), spi.hex()))
                         continue
                     algs = got[0]['algs']
                     o_ek = algs['crypt']['key'] if 'crypt' in algs else b''
                     o_ak = algs['auth']['key'] if 'auth' in algs else b''
-                    bad = [n for n, o, r in (('encr', o_ek, ek), ('integ', o_ak, ak)) if o != r]
-                    if bad:
-                        self.problem('child-keymat', '%s:%s:%s' % (c['how'], direction, '+'.join(bad)),
-                                     '%s: %s key(s) of the %s SA (SPI %s, %s, exchange initiated by %s%s) differ from '
-                                     'KEYMAT of RFC 7296 2.17: installed encr=%s integ=%s, reference encr=%s integ=%s'
-                                     % (name, '+'.join(bad), direction, spi.hex(), 'ESP' if c['proto'] == 3 else 'AH',
-                                        c['initiator'], ', PFS group %d with %d leading zero octets in g^ir' % (
-                                            c['pfs'], c['dh']['zeros']) if c['pfs'] else '',
-                                        o_ek.hex(), o_ak.hex(), ek.hex(), ak.hex()))
+                    for what, o, r in (('encr', o_ek, ek), ('integ', o_ak, ak)):
+                        if o != r:
+                            bad.add('%s.%s' % (direction, what))
+                            detail.append('%s: %s key of the %s SA (SPI %s) is %s, KEYMAT of RFC 7296 2.17 gives %s'
+                                          % (name, what, direction, spi.hex(), o.hex(), r.hex()))
+            if bad:
+                self.problem('child-keymat', '%s:%s' % (c['how'], '+'.join(sorted(bad))),
+                             '%s CHILD_SA negotiated in stage %s (exchange initiated by %s%s): %s' % (
+                                 'ESP' if c['proto'] == 3 else 'AH', c['stage'], c['initiator'],
+                                 ', PFS group %d with %d leading zero octets in g^ir' % (c['pfs'], c['dh']['zeros'])
+                                 if c['pfs'] else '', '; '.join(detail[:4])))
 
 
 # =================================================================== running one case
@@ -450,8 +455,8 @@ def run_case(case):
             case['forced'], case['zero_found'] = find_zero_vectors(case)
         ob, w = run_world(case)
     except HarnessError as ex:
-        return dict(case=case, problems=[('harness', 'run', 'error', str(ex))], counts={}, digests=[], wire_ok=0,
-                    sample=None)
+        return dict(case=case, problems=[('run-failed', 'run', 'endpoint-died-or-not-established', str(ex))], counts={},
+                    digests=[], wire_ok=0, sample=None)
     # vacuity guard: every stage must have produced the derivations it is there for
     for no, stage in enumerate(case['stages']):
         what = stage.split(':')[0]
@@ -583,9 +588,17 @@ def direct_groups(_):
                                  % (group, bits, bits - 64, bits - 130, R.MODP_C[bits])))
         # behavioural: g^bits mod p = 2^bits - p because p < 2^bits < 2p
         seams.FORCED_DH_PRIVATE[:] = [bits]
-        d = crypto.DiffieHellman.from_group(group)
+        try:
+            d = crypto.DiffieHellman.from_group(group)
+        except Exception as ex:   # noqa
+            problems.append(('modp-prime', 'direct', 'unusable:%d' % group, 'group %d: key generation raises %s: %s'
+                             % (group, type(ex).__name__, ex)))
+            continue
         got = (1 << bits) - int.from_bytes(d.public_key, 'big')
-        if len(d.public_key) != bits // 8 or got != p:
+        if len(d.public_key) != bits // 8:
+            problems.append(('ke-public', 'direct', 'width:%d' % group, 'group %d: public value 2^%d mod p is encoded in %d '
+                             'octets instead of %d' % (group, bits, len(d.public_key), bits // 8)))
+        if got != p:
             problems.append(('modp-prime', 'direct', 'behaviour:%d' % group, 'group %d: 2^%d mod p gives p = %s..., RFC 3526 '
                              'formula gives %s... (first differing hex digit at %d)' % (
                                  group, bits, hex(got)[:20], hex(p)[:20],
@@ -595,12 +608,17 @@ def direct_groups(_):
         n += 1
         for priv, pub, peer in ((i, (gix, giy), (grx, gry)), (r, (grx, gry), (gix, giy))):
             seams.FORCED_DH_PRIVATE[:] = [priv - 1]
-            d = crypto.DiffieHellman.from_group(group)
-            if d.public_key != R.ecp_encode(group, pub):
-                problems.append(('ecp-curve', 'direct', 'public:%d' % group, 'group %d: public value for the RFC 5903 '
-                                 'section 8 private key is not gx || gy of the RFC' % group))
+            try:
+                d = crypto.DiffieHellman.from_group(group)
+                if d.public_key != R.ecp_encode(group, pub):
+                    problems.append(('ecp-curve', 'direct', 'public:%d' % group, 'group %d: public value for the RFC '
+                                     '5903 section 8 private key is not gx || gy of the RFC' % group))
+                    continue
+                d.compute_secret(R.ecp_encode(group, peer))
+            except Exception as ex:   # noqa
+                problems.append(('ecp-curve', 'direct', 'unusable:%d' % group, 'group %d: %s: %s'
+                                 % (group, type(ex).__name__, ex)))
                 continue
-            d.compute_secret(R.ecp_encode(group, peer))
             if d.shared_secret != girx.to_bytes(c.size, 'big'):
                 problems.append(('ecp-curve', 'direct', 'shared:%d' % group, 'group %d: shared secret for the RFC 5903 '
                                  'section 8 vectors is %s, the RFC says %x' % (group, d.shared_secret.hex(), girx)))
@@ -678,21 +696,24 @@ def dim(case, d):
 
 
 def report(results, all_cases):
-    """group failures; the generator label names the family, the stage, and every dimension on which all failing
-    cases agree although the family varies it"""
+    """group failures; signature = clause : generator label : effect, where the label names the family of cases and
+    every dimension on which all failing cases agree although the family varies it"""
     groups = {}
     for r in results:
         for clause, stage, effect, msg in r['problems']:
-            groups.setdefault((clause, r['case'].get('family', 'direct'), stage, effect), []).append((r['case'], msg))
-    for (clause, family, stage, effect), hits in sorted(groups.items()):
+            if clause in ('run-failed', 'harness'):
+                effect = '%s@%s' % (effect, stage)
+            groups.setdefault((clause, r['case'].get('family', 'direct'), effect), []).append((r['case'], msg))
+    for (clause, family, effect), hits in sorted(groups.items()):
         fam = [c for c in all_cases if c.get('family') == family]
         narrowed = []
         for d in DIMS:
             failing, universe = {dim(c, d) for c, _ in hits}, {dim(c, d) for c in fam}
             if len(failing) < len(universe) and len(failing) <= 2:
                 narrowed.append('%s=%s' % (d, '|'.join(sorted(failing)).replace('"', '')))
-        label = '%s/%s%s' % (family, stage, '[' + ','.join(narrowed) + ']' if narrowed else '')
-        case, msg = hits[0]
+        label = family + ('[' + ','.join(narrowed) + ']' if narrowed else '')
+        labels = [c['label'] for c in all_cases]
+        case, msg = min(hits, key=lambda h: labels.index(h[0]['label']) if h[0].get('label') in labels else -1)
         ck.violation('%s:%s:%s' % (clause, label, effect),
                      '%s  [first of %d failing cases of family %s: %s]' % (msg, len(hits), family, case.get('label')),
                      dict(case=case, clause=clause, failing_cases=[c.get('label') for c, _ in hits][:40]))
@@ -768,7 +789,12 @@ def main():
 
 def _unit(u):
     t0 = time.time()
-    r = u[0](u[1])
+    try:
+        r = u[0](u[1])
+    except Exception:   # noqa  -- never lose a case silently
+        import traceback
+        r = dict(case=u[1] or dict(label='direct:' + u[0].__name__), counts={}, digests=[], wire_ok=0, sample=None,
+                 problems=[('harness', 'run', 'exception', traceback.format_exc()[-1500:])])
     r['wall'] = round(time.time() - t0, 3)
     return r
 
